@@ -464,17 +464,10 @@ impl Ingester {
         batch: &RecordBatch,
         split_point: &[u8],
     ) -> Result<(RecordBatch, RecordBatch)> {
-        use arrow_array::cast::AsArray;
-        use arrow_array::types::Int64Type;
-
-        // Extract timestamp column (our shard key is based on time)
-        let ts_column = batch
-            .column_by_name("timestamp")
-            .ok_or_else(|| Error::InvalidSchema("Missing timestamp column".into()))?;
-
-        let ts_array = ts_column
-            .as_primitive_opt::<Int64Type>()
-            .ok_or_else(|| Error::InvalidSchema("Timestamp not Int64".into()))?;
+        // Extract timestamp column (our shard key is based on time); Timestamp(Nanosecond)
+        // and Int64 columns both carry nanoseconds
+        let ts_values = crate::sharding::timestamp_nanos(batch)?;
+        let ts_array = &ts_values;
 
         // Build selection indices
         let mut indices_a = Vec::new();
